@@ -128,7 +128,7 @@ pub fn mutate_field(rng: &mut Rng, bytes: &mut [u8], img: &Image, idx: &FieldInd
             desc = format!("{:?}[{}]: {old:#x} -> {v:#x}", class, f.ctx);
         }
         DirNameUnit => {
-            let v = *rng.pick(&[0u16, 0xD800, 0xDC00, 0xDFFF, '/' as u16, ':' as u16, '!' as u16, '\\' as u16, 'a' as u16, 0xFFFF, 0x3C3]);
+            let v = *rng.pick(&[0u16, 0xD800, 0xDC00, 0xDFFF, 0xDBFF, '/' as u16, ':' as u16, '!' as u16, '\\' as u16, 'a' as u16, '.' as u16, 0xFFFF, 0x3C3]);
             wr16(bytes, f.off, v);
             desc = format!("name unit of entry {} = {v:#x}", f.ctx);
         }
@@ -215,7 +215,45 @@ fn regular_chain(img: &Image, start: u32) -> Vec<u32> {
 /// description, or None if the image offers no place for the chosen recipe.
 pub fn compound(rng: &mut Rng, bytes: &mut [u8], img: &Image) -> Option<String> {
     let regular: Vec<&refparse::RawEntry> = img.entries.iter().filter(|e| e.obj_type == 2 && e.size >= 4096 && (e.start as usize) < img.nsect).collect();
-    match rng.below(5) {
+    match rng.below(6) {
+        5 => {
+            // a live entry's free link points at an unallocated slot that still carries links
+            // and a name (a "deleted" entry that was never cleaned)
+            let n = img.entries.len() as u32;
+            let free: Vec<&refparse::RawEntry> = img.entries.iter().filter(|e| e.obj_type == 0).collect();
+            let live: Vec<&refparse::RawEntry> = img.entries.iter().filter(|e| e.obj_type != 0).collect();
+            if free.is_empty() || live.len() < 2 {
+                return None;
+            }
+            let u = *rng.pick(&free);
+            let owner = *rng.pick(&live);
+            let (off, which) = if owner.left == NOSTREAM && owner.idx != 0 {
+                (owner.off + 68, "left")
+            } else if owner.right == NOSTREAM && owner.idx != 0 {
+                (owner.off + 72, "right")
+            } else if owner.child == NOSTREAM && owner.obj_type != 2 {
+                (owner.off + 76, "child")
+            } else {
+                return None;
+            };
+            wr32(bytes, off, u.idx);
+            // dirt in the free slot: a name and links (back into the tree, to itself, out of range)
+            let name: Vec<u16> = "zz".encode_utf16().collect();
+            if rng.chance(1, 2) {
+                for (i, c) in name.iter().enumerate() {
+                    wr16(bytes, u.off + 2 * i, *c);
+                }
+                wr16(bytes, u.off + 64, 6);
+            }
+            let target = match rng.below(4) {
+                0 => owner.idx,
+                1 => u.idx,
+                2 => n + 1000,
+                _ => (*rng.pick(&live)).idx,
+            };
+            wr32(bytes, u.off + *rng.pick(&[68usize, 72, 76]), target);
+            Some(format!("compound: {which} link of entry {} -> unallocated slot {} which keeps a link to {target}", owner.idx, u.idx))
+        }
         0 => {
             // an allocated entry cut out of the tree (an orphan, as left by a writer that
             // deletes by unlinking) and adopted as the "child" of a stream
